@@ -131,13 +131,15 @@ def wf_glyph(r):
     if k == 10:
         cp = r.rng(0xA0, 0x7FF)
         if r.chance(1, 3):
-            cp = r.pick([0xA0, 0xA1, 0xBF, 0xC0, 0xFF, 0x100, 0x13F, 0x140, 0x7C0, 0x7FE, 0x7FF])
+            cp = r.pick([0xA0, 0xA1, 0xAD, 0xBF, 0xC0, 0xFF, 0x100, 0x13F, 0x140, 0x300, 0x301, 0x36F, 0x370, 0x37E, 0x7C0, 0x7FE, 0x7FF])
         return (18, 0xC0 | (cp >> 6), 0x80 | (cp & 0x3F), 0)
     cp = r.rng(0x800, 0xFFFF)
     if r.chance(1, 3):
         # the first and last lead bytes and blocks of the three-byte range
         cp = r.pick([0x800, 0x801, 0x83F, 0x840, 0x900 + r.below(0x100), 0xE00 + r.below(0x80), 0xFFF, 0x1000, 0x1001,
-                     0xCFFF, 0xD000, 0xD7FF, 0xE000, 0xF000 + r.below(0x1000), 0xFFFD, 0xFFFF])
+                     0xCFFF, 0xD000, 0xD7FF, 0xE000, 0xF000 + r.below(0x1000), 0xFFFD, 0xFFFF,
+                     # code points text-processing code likes to single out: zero-width, BOM, wide, combining-adjacent
+                     0x200B, 0x200C, 0x200D, 0x2060, 0xFEFF, 0x3000, 0xFF01, 0x1100, 0x2028, 0x2029, 0x20AC, 0x2501])
     return (18, 0xE0 | (cp >> 12), 0x80 | ((cp >> 6) & 0x3F), 0x80 | (cp & 0x3F))
 
 
@@ -206,6 +208,12 @@ class ElemSource:
 
     def next(self, near=None, near_attr=None):
         r = self.r
+        if near is None and self.prev_g is not None and r.chance(1, 12):
+            # exactly the previous element again, or exactly the default element
+            if r.chance(1, 2):
+                return el(self.prev_g, self.prev_attr)
+            self.prev_attr, self.prev_cs, self.prev_g = DEFAULT_ATTR, 5, (5, 32, 0, 0)
+            return el((5, 32, 0, 0), DEFAULT_ATTR)
         if not self.wild and near is None:
             if self.queued is not None:
                 a, self.queued = self.queued, None
@@ -304,8 +312,20 @@ def gen_term_case(r, idx, wild=False, nops=None, kinds=None):
             if cur is not None:
                 cur = (cur[0] + m, cur[1])
         elif k < 14:
-            if wild or any(re.match(r"T 0 (elem|str|oda|erase)", l) for l in lines):
+            if wild and r.chance(1, 3):
+                # the bare manipulator with exactly the default element (element{})
+                lines.append("T 0 raw " + DEFAULT_TXT)
+                if r.chance(2, 3):
+                    # ... and then something the default rendition needs nothing for
+                    lines.append(r.pick(["T 0 elem " + DEFAULT_TXT, "T 0 elem " + el((5, r.rng(33, 126), 0, 0), DEFAULT_ATTR),
+                                         "T 0 oda", "T 0 raw " + DEFAULT_TXT, "T 0 erase %d" % r.below(6)]))
+            elif wild or any(re.match(r"T 0 (elem|str|oda|erase)", l) for l in lines):
                 lines.append("T 0 raw " + es.next())
+            if r.chance(1, 6):
+                # the channel is not alive for a while (a connection that queues until
+                # it is established, or one that is draining): nothing about what the
+                # library sends or believes may depend on it
+                lines.append("T 0 alive %d" % r.below(2))
         elif k < 15:
             lines.append("T 0 oda")
         elif k < 21:
@@ -357,6 +377,12 @@ def gen_term_case(r, idx, wild=False, nops=None, kinds=None):
         elif k < 31:
             t = [r.rng(0x20, 0x7E) if r.chance(3, 4) else r.rng(0xA0, 0xFF)
                  for _ in range(r.pick([63, 64, 65, 255, 256, 257, 1000]) if long else r.below(8))]
+            if r.chance(1, 3):
+                # a title that is UTF-8 text: every continuation byte 0x80..0xBF occurs
+                t = []
+                for _c in range(r.rng(1, 5)):
+                    cp = r.pick([r.rng(0x80, 0x7FF), r.rng(0x800, 0xFFFF), 0xDC, 0x201C, 0x2713, 0x672C, r.rng(0x20, 0x7E)])
+                    t += list(chr(cp).encode("utf-8", "surrogatepass"))
             if wild and r.chance(1, 2):
                 t = [r.below(256) for _ in range(r.below(5))]
             lines.append("T 0 title " + hexs(t))
@@ -918,19 +944,41 @@ def gen_markup_case(r, idx, respell=False):
     markup, expect = [], []
     cs, fg, bg, inten, ul, neg = 5, ("low", 9), ("low", 9), 0, 0, 0
     prev_utf8 = False
-    for _ in range(n):
+    run = 0
+    pending_run = 0
+    lead = 0
+    in_run = False
+    total = 0
+    while total < n or run > 0 or pending_run > 0:
+        total += 1
         # what the element shall be
-        if r.chance(1, 3):
-            ncs = r.below(18)
+        in_run = False
+        if run == 0 and pending_run == 0 and total > 1 and r.chance(1, 8):
+            # a run of plain text: many characters with no directive at all between
+            # them, often right after a \U glyph or a character-set change
+            pending_run = r.pick([15, 16, 17, 31, 32, 33, 40])
+            lead = r.below(3)
+        elif pending_run:
+            run, pending_run, lead = pending_run, 0, 0
+        if run > 0:
+            run -= 1
+            in_run = True
+            ncs, uni = (5 if prev_utf8 else cs), False
+            nfg, nbg, nint, nul, nneg = fg, bg, inten, ul, neg
+        elif pending_run and lead:
+            # the element the run follows
+            ncs = r.below(18) if lead == 2 else cs
+            uni = lead == 1
+            nfg, nbg, nint, nul, nneg = fg, bg, inten, ul, neg
         else:
-            ncs = cs
-        uni = r.chance(1, 5)
-        nfg = x_colour(r) if r.chance(1, 3) else fg
-        nbg = x_colour(r) if r.chance(1, 4) else bg
-        nint = r.below(3) if r.chance(1, 3) else inten
-        nul = r.below(2) if r.chance(1, 4) else ul
-        nneg = r.below(2) if r.chance(1, 4) else neg
-        if r.chance(1, 12):
+            ncs = r.below(18) if r.chance(1, 3) else cs
+            uni = r.chance(1, 5)
+            nfg = x_colour(r) if r.chance(1, 3) else fg
+            nbg = x_colour(r) if r.chance(1, 4) else bg
+            nint = r.below(3) if r.chance(1, 3) else inten
+            nul = r.below(2) if r.chance(1, 4) else ul
+            nneg = r.below(2) if r.chance(1, 4) else neg
+        if not in_run and not pending_run and r.chance(1, 12):
             # the reset directive
             markup += [92, 120]
             fg, bg, inten, ul, neg = ("low", 9), ("low", 9), 0, 0, 0
@@ -965,6 +1013,8 @@ def gen_markup_case(r, idx, respell=False):
             cs = 5
         else:
             b = r.pick([r.rng(32, 126), r.below(256), 92])
+            if in_run:
+                b = r.pick([x for x in range(32, 127) if x != 92])
             if b == 92:
                 markup += [92, 92]
             elif respell and r.chance(1, 4):
